@@ -657,8 +657,11 @@ class BlobStorageMixin:
     def _blob_tpc_abort(self):
         """Blob cleanup to be called from subclass tpc_abort
         """
-        while self.dirty_oids:
-            oid, serial = self.dirty_oids.pop()
+        self._blob_remove_files(self.dirty_oids)
+
+    def _blob_remove_files(self, dirty_oids):
+        while dirty_oids:
+            oid, serial = dirty_oids.pop()
             clean = self.fshelper.getBlobFilename(oid, serial)
             if os.path.exists(clean):
                 remove_committed(clean)
@@ -769,13 +772,24 @@ class BlobStorage(BlobStorageMixin):
         return '<BlobStorage proxy for {!r} at {}>'.format(normal_storage,
                                                            hex(id(self)))
 
-    def tpc_finish(self, *arg, **kw):
+    def _blob_is_committing(self, transaction):
+        # Is `transaction` the one being committed (and so the owner of
+        # the dirty blob files)?
+        tpc_transaction = getattr(self.__storage, 'tpc_transaction', None)
+        return tpc_transaction is None or tpc_transaction() is transaction
+
+    # The wrapped storage's tpc_finish/tpc_abort releases the commit lock.
+    # From then on the list of dirty blob files belongs to the next
+    # transaction, which may already be storing blobs, so the list is
+    # detached before the wrapped storage is called, never touched after.
+
+    def tpc_finish(self, transaction, *arg, **kw):
         # We need to override the base storage's tpc_finish instead of
         # providing a _finish method because methods found on the proxied
         # object aren't rebound to the proxy
-        tid = self.__storage.tpc_finish(*arg, **kw)
-        self._blob_tpc_finish()
-        return tid
+        if self._blob_is_committing(transaction):
+            self.dirty_oids = []  # the files are committed with the records
+        return self.__storage.tpc_finish(transaction, *arg, **kw)
 
     def tpc_abort(self, transaction, *arg, **kw):
         # We need to override the base storage's abort instead of
@@ -783,11 +797,12 @@ class BlobStorage(BlobStorageMixin):
         # object aren't rebound to the proxy
         # The blob files belong to the transaction being committed: a
         # call for any other transaction must not touch them.
-        tpc_transaction = getattr(self.__storage, 'tpc_transaction', None)
-        ours = tpc_transaction is None or tpc_transaction() is transaction
-        self.__storage.tpc_abort(transaction, *arg, **kw)
-        if ours:
-            self._blob_tpc_abort()
+        if self._blob_is_committing(transaction):
+            dirty_oids, self.dirty_oids = self.dirty_oids, []
+            self.__storage.tpc_abort(transaction, *arg, **kw)
+            self._blob_remove_files(dirty_oids)
+        else:
+            self.__storage.tpc_abort(transaction, *arg, **kw)
 
     def _packUndoing(self, packtime, referencesf):
         # Walk over all existing revisions of all blob files and check
